@@ -10,10 +10,10 @@ import Kevo.Proofs.TableGet
 namespace Kevo.Proofs.Table
 open Kevo Kevo.Block Kevo.Table Kevo.Proofs.TableAux
 
-/-- an entry the format can represent: non-empty key that fits the 16-bit length field, value shorter than the
+/-- an entry the format can represent: key (possibly empty) that fits the 16-bit length field, value shorter than the
     tombstone marker, 64-bit sequence number. -/
 def EntryWF (e : BEntry) : Prop :=
-  1 ≤ e.key.length ∧ e.key.length ≤ 65535 ∧ (∀ v, e.val = some v → v.length < 2 ^ 32 - 1) ∧ e.seq < 2 ^ 64
+  e.key.length ≤ 65535 ∧ (∀ v, e.val = some v → v.length < 2 ^ 32 - 1) ∧ e.seq < 2 ^ 64
 
 /-- the checksum function returns 64-bit values (xxhash.Sum64 does). -/
 def HashOK (hash : Bytes → Nat) : Prop := ∀ bs, hash bs < 2 ^ 64
@@ -58,7 +58,7 @@ theorem collectB_none (es : List BEntry) (fuel : Nat) :
   | zero => rfl
   | succ f => simp [collectB, Block.Iter.cur, Block.Iter.valid]
 
-theorem collectB_from (es : List BEntry) (hk : ∀ e ∈ es, e.key ≠ []) :
+theorem collectB_from (es : List BEntry) :
     ∀ (fuel i : Nat), i < es.length → es.length - i ≤ fuel →
       collectB fuel ({ es := es, pos := some i, init := true } : Block.Iter) = es.drop i := by
   intro fuel
@@ -69,7 +69,7 @@ theorem collectB_from (es : List BEntry) (hk : ∀ e ∈ es, e.key ≠ []) :
     have hcur : ({ es := es, pos := some i, init := true } : Block.Iter).cur = some es[i] := by
       simp [Block.Iter.cur, hi]
     have hval : ({ es := es, pos := some i, init := true } : Block.Iter).valid = true := by
-      simp [Block.Iter.valid, hcur]; exact hk _ (List.getElem_mem _)
+      simp [Block.Iter.valid, hcur]
     rw [collectB]
     simp only [hcur, hval]
     rw [List.drop_eq_getElem_cons hi]
@@ -82,16 +82,16 @@ theorem collectB_from (es : List BEntry) (hk : ∀ e ∈ es, e.key ≠ []) :
       omega
 
 /-- (B2) forward iteration yields every entry exactly once, in order. -/
-theorem block_iter_all (es : List BEntry) (hk : ∀ e ∈ es, e.key ≠ []) :
+theorem block_iter_all (es : List BEntry) :
     collectB (es.length + 1) ({ es := es } : Block.Iter).first = es := by
   cases es with
   | nil => simp [collectB, Block.Iter.first, Block.Iter.cur, Block.Iter.valid]
   | cons e es =>
-    have := collectB_from (e :: es) hk ((e :: es).length + 1) 0 (by simp) (by omega)
+    have := collectB_from (e :: es) ((e :: es).length + 1) 0 (by simp) (by omega)
     simpa [Block.Iter.first] using this
 
 /-- (B3) Seek(t) lands on the first entry with key ≥ t, or is invalid if there is none. -/
-theorem block_seek_spec (es : List BEntry) (hasc : Block.strictAsc es = true) (hk : ∀ e ∈ es, e.key ≠ []) (t : Bytes) :
+theorem block_seek_spec (es : List BEntry) (hasc : Block.strictAsc es = true) (t : Bytes) :
     let r := ({ es := es } : Block.Iter).seek t
     match r.1.cur with
     | some e => r.2 = true ∧ r.1.valid = true ∧ e ∈ es ∧ ltB e.key t = false ∧ (∀ e' ∈ es, ltB e'.key t = false → ltB e'.key e.key = false)
@@ -111,8 +111,7 @@ theorem block_seek_spec (es : List BEntry) (hasc : Block.strictAsc es = true) (h
       obtain ⟨hi, h1, h2⟩ := findGE_some es hasc t i hf
       have hc : (Option.some i).bind (fun i => es[i]?) = some es[i] := by simp [hi]
       simp only [Block.Iter.cur, Block.Iter.valid, hc, Option.isSome_some, true_and]
-      refine ⟨?_, List.getElem_mem _, h1, h2⟩
-      simpa using hk _ (List.getElem_mem hi)
+      exact ⟨List.getElem_mem _, h1, h2⟩
 
 /-- (T1) a table file written from a strictly ascending entry list opens, and reading its blocks in index order
     gives back exactly the entries written (any number of blocks, with or without bloom filters). -/
@@ -145,7 +144,7 @@ theorem collectT_none (es : List BEntry) (fuel : Nat) :
   | zero => rfl
   | succ f => simp [collectT, Table.TIter.cur, Table.TIter.valid]
 
-theorem collectT_from (es : List BEntry) (hk : ∀ e ∈ es, e.key ≠ []) :
+theorem collectT_from (es : List BEntry) :
     ∀ (fuel i : Nat), i < es.length → es.length - i ≤ fuel →
       collectT fuel ({ es := es, pos := some i, init := true } : Table.TIter) = es.drop i := by
   intro fuel
@@ -156,7 +155,7 @@ theorem collectT_from (es : List BEntry) (hk : ∀ e ∈ es, e.key ≠ []) :
     have hcur : ({ es := es, pos := some i, init := true } : Table.TIter).cur = some es[i] := by
       simp [Table.TIter.cur, hi]
     have hval : ({ es := es, pos := some i, init := true } : Table.TIter).valid = true := by
-      simp [Table.TIter.valid, hcur]; exact hk _ (List.getElem_mem _)
+      simp [Table.TIter.valid, hcur]
     rw [collectT]
     simp only [hcur, hval]
     rw [List.drop_eq_getElem_cons hi]
@@ -169,15 +168,15 @@ theorem collectT_from (es : List BEntry) (hk : ∀ e ∈ es, e.key ≠ []) :
       omega
 
 /-- (T2) table-level iteration and seek over the flattened entries. -/
-theorem table_iter_all (es : List BEntry) (hk : ∀ e ∈ es, e.key ≠ []) :
+theorem table_iter_all (es : List BEntry) :
     collectT (es.length + 1) ({ es := es } : Table.TIter).first = es := by
   cases es with
   | nil => simp [collectT, Table.TIter.first, Table.TIter.cur, Table.TIter.valid]
   | cons e es =>
-    have := collectT_from (e :: es) hk ((e :: es).length + 1) 0 (by simp) (by omega)
+    have := collectT_from (e :: es) ((e :: es).length + 1) 0 (by simp) (by omega)
     simpa [Table.TIter.first] using this
 
-theorem table_seek_spec (es : List BEntry) (hasc : Block.strictAsc es = true) (hk : ∀ e ∈ es, e.key ≠ []) (t : Bytes) :
+theorem table_seek_spec (es : List BEntry) (hasc : Block.strictAsc es = true) (t : Bytes) :
     let r := ({ es := es } : Table.TIter).seek t
     match r.1.cur with
     | some e => r.2 = true ∧ r.1.valid = true ∧ e ∈ es ∧ ltB e.key t = false ∧ (∀ e' ∈ es, ltB e'.key t = false → ltB e'.key e.key = false)
@@ -194,8 +193,7 @@ theorem table_seek_spec (es : List BEntry) (hasc : Block.strictAsc es = true) (h
     obtain ⟨hi, h1, h2⟩ := findGE_some es hasc t i hf
     have hc : (Option.some i).bind (fun i => es[i]?) = some es[i] := by simp [hi]
     simp only [Table.TIter.cur, Table.TIter.valid, hc, Option.isSome_some, true_and, if_true]
-    refine ⟨?_, List.getElem_mem _, h1, h2⟩
-    simpa using hk _ (List.getElem_mem hi)
+    exact ⟨List.getElem_mem _, h1, h2⟩
 
 /-- (T3) point lookup finds every written key with its value / deletion flag, and nothing else
     (needs: no bloom false negatives + each filter keyed by its own block's offset + candidate block choice). -/
